@@ -274,3 +274,16 @@ Example C03_multipart_guard_example :
     [mk_mpart (str "q""uote;semi\back"%string) [] (str "x--XbX"%string ++ [13; 10; 45; 45]%N ++ str "Xb"%string);
      mk_mpart (str "up"%string) (str "C:\dir\e"".php"%string) ([13; 10]%N ++ str "-- line"%string ++ [0; 255]%N)] = true.
 Proof. exact multipart_guard_example. Qed.
+
+(* a body below SecRequestBodyLimit: what the rules see does not depend on how the body was split
+   into chunks nor on the entry point of each chunk (WriteRequestBody, ReadRequestBodyFrom with or
+   without Len) - it is the body processor's result on the concatenation; in particular any two
+   deliveries of the same bytes give the same variables *)
+Theorem C03_body_split_independent : forall limit reject process,
+  (0 < limit)%nat -> forall chunks t0,
+  (length (concat (map snd chunks)) < limit)%nat ->
+  let s := body_stream limit reject process chunks t0 in
+  bs_inbound s = false /\ bs_interrupted s = false /\
+  bs_buf s = concat (map snd chunks) /\ bs_tx s = process (concat (map snd chunks)) t0.
+Proof. exact body_stream_split_independent. Qed.
+Print Assumptions C03_body_split_independent.
